@@ -200,7 +200,8 @@ Record gk_asm : Type := GkAsm {
   gka_p : nat; gka_nb : nat;
   gka_mass : list (list F); gka_k2 : list (list F); gka_phipsi : list (list F);
   gka_dd : list (list F); gka_d1 : list (list F);
-  gka_tab : list (list gk_pt)
+  gka_tab : list (list gk_pt);
+  gka_E : list (list F)          (* self._rhoFactor at the points, used by _solveModeFunc *)
 }.
 
 Definition gk_assemble (knots : list F) (p nc nq : nat) (pts : list (list F)) (wts : list F) (mf : F)
@@ -210,7 +211,7 @@ Definition gk_assemble (knots : list F) (p nc nq : nat) (pts : list (list F)) (w
     let phi := gk_phi p T in
     let W := fun (c q : nat) => nth q wts 0 * mf in
     let dg := fun k => gk_diags p nc nq phi W (gk_at pts) (gk_at At) (gk_at Bt) (gk_at Ct) (gk_at Dt) (gk_at Et) k (nc + p) in
-    SpOk (GkAsm p (nc + p) (dg GkMass) (dg GkK2) (dg GkPhiPsi) (dg GkDD) (dg GkD1) T)
+    SpOk (GkAsm p (nc + p) (dg GkMass) (dg GkK2) (dg GkPhiPsi) (dg GkDD) (dg GkD1) T Et)
   else SpArgErr).
 
 Definition gk_msq (m : Z) : F := sp_ofZ F K (m * m).
@@ -227,11 +228,11 @@ Definition gk_mode_matrix (S : gk_asm) (m : Z) (lo hi : nat) : list (list F) :=
 Definition gk_rhs_discrete (S : gk_asm) (lo hi : nat) (rho : list F) : list F :=
   map (fun a => gsum (gka_nb S) (fun b => gk_entry (gka_p S) (gka_mass S) a b * nth b rho 0)) (seq lo (hi - lo)).
 
-(** rhoVec[a] = sum over ALL points of w*multFactor*B_a(x)*x*rho(x)   (no rhoFactor: as the code) *)
+(** rhoVec[a] = sum over ALL points of w*multFactor*B_a(x)*x*E(x)*rho(x)   (E = self._rhoFactor) *)
 Definition gk_rhs_func (S : gk_asm) (nc nq : nat) (pts : list (list F)) (wts : list F) (mf : F)
   (rhot : list (list F)) (lo hi : nat) : list F :=
   map (fun a => gsum nc (fun c => gsum nq (fun q =>
-        nth q wts 0 * mf * gk_phi (gka_p S) (gka_tab S) 0 a c q * gk_at pts c q * gk_at rhot c q)))
+        nth q wts 0 * mf * gk_phi (gka_p S) (gka_tab S) 0 a c q * gk_at pts c q * gk_at (gka_E S) c q * gk_at rhot c q)))
       (seq lo (hi - lo)).
 
 (** coeffs[:] = solution with self._coeffs[0] = self._coeffs[-1] = 0 set before: [buf] is the content
